@@ -1,5 +1,6 @@
 import Xp.Props.C01
 import Xp.Props.C09
+import Xp.Proofs.C02Crd
 /-
 C02 — Crossplane never modifies, adopts or deletes what another owner controls.
 
@@ -20,8 +21,9 @@ open Xp.C01
 when the history started is, at every instant of every (faulty) reconcile with either
 composer, still in the store exactly as it was — not updated, not adopted, not deleted —
 wherever it sits: named in spec.resourceRefs, bearing the name a desired resource asks
-for, or annotated with a template name. -/
-theorem composers_leave_foreign_untouched (s : St) (hg : Good s) (m : Mode) (hm : ModeOK m) (plan : Plan) :
+for, or annotated with a template name — and whatever composed resources are missing from the
+informer cache while the reconcile runs (`s.miss` is arbitrary). -/
+theorem composers_leave_foreign_untouched (s : St) (hg : Good s) (m : Mode) (hm : ModeOK s.miss m) (plan : Plan) :
     ∀ s' ∈ reach sem plan 0 (reconcile m) s, ∀ o ∈ s.foreign0, o.ctrl = .other ∧ o ∈ s'.objs := by
   intro s' hs' o ho
   have hg' := invariant_every_instant s hg m hm plan s' hs'
@@ -44,12 +46,19 @@ where
     | call r c ih => exact Issues.call r c trivial ih
 
 /-- The same over every history of faulty reconciles. -/
-theorem composers_leave_foreign_untouched_history (h : List (Plan × Mode)) (hok : ∀ pm ∈ h, ModeOK pm.2)
-    (s : St) (hg : Good s) :
+theorem composers_leave_foreign_untouched_history (h : List (Plan × Mode)) (s : St) (hok : ∀ pm ∈ h, ModeOK s.miss pm.2)
+    (hg : Good s) :
     ∀ s' ∈ reachHistory sem (h.map fun pm => (pm.1, reconcile pm.2)) s,
       ∀ o ∈ s'.foreign0, o.ctrl = .other ∧ o ∈ s'.objs := by
   intro s' hs' o ho
-  exact (invariant_every_history h hok s hg s' hs').frame o ho
+  exact (invariant_every_history h s hok hg s' hs').frame o ho
+
+/-- The same over every history in which every reconcile has its own set of cache misses. -/
+theorem composers_leave_foreign_untouched_history_every_miss_set (h : List (List Ref × Plan × Mode))
+    (hok : ∀ x ∈ h, ModeOK x.1 x.2.2) (s : St) (hg : Good s) :
+    ∀ s' ∈ reachRounds h s, ∀ o ∈ s'.foreign0, o.ctrl = .other ∧ o ∈ s'.objs := by
+  intro s' hs' o ho
+  exact (invariant_every_history_every_miss_set h hok s hg s' hs').frame o ho
 
 /-- The API-server model itself refuses to let the function composer's server-side apply
 put a second controller reference on a foreign object: the object is left as it was and the
@@ -59,12 +68,14 @@ theorem ssa_apply_on_foreign_is_refused (s : St) (k n a : String) (c : Nat) (o :
     exec s (.apply k n a c) = (s, .invalid) := by
   simp [exec, hf, hc]
 
-/-- P&T: `Apply(MustBeControllableBy(xr))` reads the object and, finding it controlled by
-someone else, goes straight to the error epilogue (one status update of the XR): no write
-is addressed to the foreign object. -/
+/-- P&T: `Apply(MustBeControllableBy(xr))` reads the object (through the informer cache) and,
+finding it controlled by someone else, goes straight to the error epilogue (one status update of
+the XR): no write is addressed to the foreign object. (When the foreign object is missing from the
+cache, Apply issues a Create, which the API server answers with AlreadyExists: `exec_create_exists`;
+nothing is written either, and `composers_leave_foreign_untouched` covers that case too.) -/
 theorem pt_apply_on_foreign_goes_to_error (lrv : Nat) (r : Rendered) (rs : List Rendered) (b : Bool) (k : Bool → P)
     (o : CObj) (hr : r.rendered = true) (hc : o.ctrl = .other) :
-    ∃ c, applyPT lrv (r :: rs) b k = .call (.getObj r.d.kind r.name) c ∧ c (.found o) = onError lrv := by
+    ∃ c, applyPT lrv (r :: rs) b k = .call (.getCached r.d.kind r.name) c ∧ c (.found o) = onError lrv := by
   simp only [applyPT, hr, Bool.not_true, Bool.false_eq_true, if_false]
   exact ⟨_, rfl, by simp [hc]⟩
 
@@ -86,5 +97,69 @@ theorem claim_secret_foreign_untouched (fs d : Xp.C09.Secret) (hx : fs.ctrl = .x
 
 /-- Objects without a controller reference may be adopted (non-vacuity of the guard). -/
 example : (Xp.C09.publish true [] [("k", "v")] (some ⟨true, .none, []⟩)).slot = some ⟨true, .owner, [("k", "v")]⟩ := by decide
+
+/-! ### An XRD defining its CRDs (definition / offered reconcilers; model `Xp.C02Crd`) -/
+
+/-- **Derived CRDs: not updated, not adopted, not deleted.** A CRD with the name derived from
+the XRD whose controller reference names another owner (another XRD, a previous incarnation
+of this XRD, an object of another kind) is, at every instant of every faulty reconcile of the
+definition or the offered reconciler — XRD live or deleting, with or without finalizer —
+in the store exactly as it was. -/
+theorem xrd_crd_foreign_untouched (w : Xp.C02Crd.Which) (plan : Plan) (s : Xp.C02Crd.St) (c : Xp.C02Crd.CRD)
+    (hc : s.crd = some c) (ho : c.ctrl = .other) :
+    ∀ s' ∈ reach Xp.C02Crd.sem plan 0 (Xp.C02Crd.reconcile w) s, s'.crd = some c :=
+  Xp.C02Crd.crd_foreign_untouched w plan s c hc ho
+
+/-- No applied request (create, update, delete) is addressed to such a CRD, under every plan. -/
+theorem xrd_crd_foreign_no_write (w : Xp.C02Crd.Which) (plan : Plan) (s : Xp.C02Crd.St) (c : Xp.C02Crd.CRD)
+    (hc : s.crd = some c) (ho : c.ctrl = .other) :
+    ∀ r ∈ applied Xp.C02Crd.sem plan 0 (Xp.C02Crd.reconcile w) s, r.targetsCRD = false :=
+  Xp.C02Crd.crd_foreign_no_write w plan s c hc ho
+
+/-- **The conflict surfaces.** Fault-free, the reconcile of a live XRD against a CRD controlled
+by another owner returns an error (and a warning event) and does not report Watching. -/
+theorem xrd_crd_foreign_surfaces_error (w : Xp.C02Crd.Which) (s : Xp.C02Crd.St) (d : Xp.C02Crd.XRD) (c : Xp.C02Crd.CRD)
+    (hx : s.xrd = some d) (hl : d.del = false) (hr : Xp.C02Crd.renderable w d)
+    (hc : s.crd = some c) (ho : c.ctrl = .other) :
+    (run Xp.C02Crd.sem Plan.allOk 0 (Xp.C02Crd.reconcile w) s).2 = some .err ∧
+    ((run Xp.C02Crd.sem Plan.allOk 0 (Xp.C02Crd.reconcile w) s).1.xrd.map (·.cond)) = some d.cond :=
+  Xp.C02Crd.crd_foreign_surfaces_error w s d c hx hl hr hc ho
+
+/-- … and under every fault plan it never ends in plain success. -/
+theorem xrd_crd_foreign_never_success (w : Xp.C02Crd.Which) (plan : Plan) (s : Xp.C02Crd.St) (d : Xp.C02Crd.XRD)
+    (c : Xp.C02Crd.CRD) (hx : s.xrd = some d) (hl : d.del = false) (hr : Xp.C02Crd.renderable w d)
+    (hc : s.crd = some c) (ho : c.ctrl = .other) :
+    (run Xp.C02Crd.sem plan 0 (Xp.C02Crd.reconcile w) s).2 ≠ some .ok :=
+  Xp.C02Crd.crd_foreign_never_success w plan s d c hx hl hr hc ho
+
+/-- **Deletion guard.** A deleting XRD never deletes or otherwise touches a CRD it does not
+control (controlled by somebody else, or by nobody): `metav1.IsControlledBy(crd, d)`. -/
+theorem xrd_crd_deletion_guard (w : Xp.C02Crd.Which) (plan : Plan) (s : Xp.C02Crd.St) (d : Xp.C02Crd.XRD)
+    (c : Xp.C02Crd.CRD) (hx : s.xrd = some d) (hd : d.del = true) (hc : s.crd = some c) (hn : c.ctrl ≠ .xrd) :
+    ∀ s' ∈ reach Xp.C02Crd.sem plan 0 (Xp.C02Crd.reconcile w) s, s'.crd = some c :=
+  Xp.C02Crd.crd_deletion_guard w plan s d c hx hd hc hn
+
+/-- **Objects that have no controller reference may be adopted**: fault-free, a live XRD turns
+an uncontrolled CRD into the rendered CRD controlled by the XRD. -/
+theorem xrd_crd_uncontrolled_adopted (w : Xp.C02Crd.Which) (s : Xp.C02Crd.St) (d : Xp.C02Crd.XRD) (c : Xp.C02Crd.CRD)
+    (hx : s.xrd = some d) (hl : d.del = false) (hr : Xp.C02Crd.renderable w d)
+    (hc : s.crd = some c) (hn : c.ctrl = .none) (hnd : c.del = false) :
+    ∃ c', (run Xp.C02Crd.sem Plan.allOk 0 (Xp.C02Crd.reconcile w) s).1.crd = some c' ∧
+      c'.ctrl = .xrd ∧ c'.body = .rendered ∧ c'.plain = false ∧ c'.est = c.est ∧
+      (run Xp.C02Crd.sem Plan.allOk 0 (Xp.C02Crd.reconcile w) s).2 = some (if c.est then .ok else .requeue) :=
+  Xp.C02Crd.crd_uncontrolled_adopted w s d c hx hl hr hc hn hnd
+
+/-- A CRD of the XRD itself ends with the rendered body. -/
+theorem xrd_crd_own_updated (w : Xp.C02Crd.Which) (s : Xp.C02Crd.St) (d : Xp.C02Crd.XRD) (c : Xp.C02Crd.CRD)
+    (hx : s.xrd = some d) (hl : d.del = false) (hr : Xp.C02Crd.renderable w d)
+    (hc : s.crd = some c) (hn : c.ctrl = .xrd) (hnd : c.del = false) :
+    ∃ c', (run Xp.C02Crd.sem Plan.allOk 0 (Xp.C02Crd.reconcile w) s).1.crd = some c' ∧
+      c'.ctrl = .xrd ∧ c'.body = .rendered ∧ c'.plain = false ∧ c'.est = c.est :=
+  Xp.C02Crd.crd_own_updated w s d c hx hl hr hc hn hnd
+
+/-- non-vacuity: a concrete store with a foreign CRD; the reconcile adds the XRD's finalizer,
+reads the CRD and fails, the CRD is untouched -/
+example : run Xp.C02Crd.sem Plan.allOk 0 (Xp.C02Crd.reconcile .definition) Xp.C02Crd.exForeign =
+    ({ Xp.C02Crd.exForeign with xrd := some ⟨false, true, false, true, .none, 3⟩, next := 3 }, some .err) := by decide
 
 end Xp.C02
